@@ -241,6 +241,15 @@ func (c *Ctx) outcomeFacts(call *ssa.Call, idx int, oc outcome, depth int, subst
 				if inner, iidx := callOf(rv.val); inner != nil {
 					facts = c.factsAtWithEdge(r, rv, depth-1, ns, nvia, d+1)
 					facts = append(facts, c.outcomeFacts(inner, iidx, oc, depth-1, ns, nvia, d+1)...)
+				} else if _, isCmp := Unwrap(rv.val).(*ssa.BinOp); isCmp && oc != outcomeNil {
+					// `return a || b` / `return x.f() != K`: on this alternative the outcome IS the
+					// comparison — it holds (or fails) together with what led here
+					facts = c.factsAtWithEdge(r, rv, depth-1, ns, nvia, d+1)
+					cond, truth := normCond(Unwrap(rv.val), oc == outcomeTrue)
+					facts = append(facts, Fact{Cond: cond, Truth: truth, Fn: callee, Subst: ns, Depth: d + 1, Via: nvia})
+					if depth-1 > 0 {
+						facts = append(facts, c.calleeFacts(cond, truth, callee, depth-1, ns, nvia, d+1)...)
+					}
 				} else {
 					// unknown value: this path may produce the outcome with no facts at all
 					facts = nil
